@@ -26,7 +26,9 @@ CFG = {
             "mark, snappy on/off) are all read before any payload is consumed (also through Peer.readLoop with a slow handler and pings in "
             "between); every payload must still equal what was written. Consistently inflated RLP length prefixes: 192 short signed datagrams "
             "claiming 2^10..2^63 bytes at 12 string/tail positions with all enclosing lists adjusted; error, no panic, allocation <= 1 MiB. "
-            "Silent / stalling peers: 16 scenarios "
+            "Discovery bonding histories: ping / failed, wrong-ReplyTok or verified ping-back / unsolicited pong / findnode on a real "
+            "udp+Table (datagrams through handlePacket; FINDNODE served <=> verified pong from that key; 20 with the ping-back timeout stubbed, 2 with the real 4 s respTimeout). "
+            "Silent / stalling peers: 18 scenarios "
             "run concurrently, one per blocking read/write on a handler path (aqua ProtocolManager.handle / peer.Handshake: no Status, no reads, "
             "Status after the timeout; Server.SetupConn inbound and dialed: nothing, half an auth packet, size prefix only, silence after the "
             "encryption handshake with and without reading, half a frame header; established peers going silent / stopping mid-frame), each must "
@@ -41,6 +43,7 @@ CFG = {
             "p2p.receiverEncHandshake / initiatorEncHandshake / readProtocolHandshake / Server.runPeer / Peer.run": "direct judgement on the real code (never panics / hangs / over-allocates; class of readProtocolHandshake vs model)",
             "discover.NodeID.Pubkey / Node.validateComplete / rlpx handleAuthMsg (via doEncHandshake)": "corr (Go vs Model.Net.idOnCurve / handleAuthMsg) + direct judgement against the curve equation",
             "aqua.ProtocolManager.handle / peer.Handshake, p2p.Server.SetupConn / setupConn / doProtoHandshake, Peer.run readLoop (silent peers)": "direct judgement with per-stage deadlines (never wedges)",
+            "discover udp.handlePacket / ping.handle / pong.handle / findnode.handle / Table.bond / pingpong / Table.ping / nodeDB.hasBond": "corr (bond histories vs Model.Net.bondStep / findnodeServed) + direct judgement",
             "aqua.ProtocolManager.handleMsg / peer.readStatus": "corr on the front (size limit, code dispatch, decode-error path; decode verdict as oracle) + direct judgement"},
     "assumptions": ["Go runtime, math/big, rlp internals and the cryptographic primitives are modelled as parameters, not verified (DESIGN.md 2.5)",
                     "frame_tamper_detected_partial assumes collision-freedom of the truncated Keccak MAC on the two inputs of the comparison reached; unforgeability when both a region and its MAC field are replaced is a cryptographic assumption exercised on the real primitives only",
